@@ -277,6 +277,58 @@ func CorpusImports(seed int64, tier string) []*Case {
 			}
 		}
 	}
+	// path components that make unusable aliases once uniqueName strips and joins them:
+	// a keyword (go, type), a digit first (2fa), a predeclared name the file needs (error).
+	// gofmt and goimports refuse such output (a diagnostic: C19); -fmt noop lets it through.
+	exotic := []impElem{{[]string{"p", "go"}, "y"}, {[]string{"q", "type"}, "foo"}, {[]string{"2fa"}, "y"}, {[]string{"r", "error"}, "y"}, {[]string{"3d", "kit"}, "foo"}}
+	for _, e := range exotic {
+		for _, b := range u {
+			if b.Name != e.Name {
+				continue
+			}
+			for _, sel := range [][]impElem{{e, b}, {b, e}} {
+				n0 := len(cases)
+				mk(sel, nil, "exotic-alias:"+name(sel))
+				if len(cases) > n0 {
+					c := cases[len(cases)-1]
+					c.Origin = "imports:exotic-alias:noop:" + name(sel)
+					c.Cfg.Fmt = "noop"
+					c.Judge = []string{"C01", "C11", "C19"}
+					d := *c
+					d.Origin = "imports:exotic-alias:gofmt:" + name(sel)
+					d.Cfg.Fmt = ""
+					d.Judge = []string{"C19"}
+					cases = append(cases, &d)
+				}
+			}
+		}
+	}
+	// path elements that merely contain "vendor" (multivendor/catalog): nothing is
+	// vendored here, the paths must come out as they are
+	vend := []impElem{{[]string{"multivendor", "catalog"}, "catalog"}, {[]string{"thirdvendor", "catalog"}, "catalog"}, {[]string{"vendorx", "kit"}, "foo"}, {[]string{"x", "vendor-kit"}, "foo"}}
+	for _, a := range vend {
+		mk([]impElem{a}, nil, "vendorish:"+name([]impElem{a}))
+		for _, b := range append(append([]impElem{}, vend...), u[0], u[4]) {
+			sel := []impElem{a, b}
+			mk(sel, nil, "vendorish:"+name(sel))
+		}
+	}
+	// one package imported under different names by different files of the source
+	// package (the loader's file order decides which one moq harvests)
+	for _, a := range []impElem{u[0], u[4]} {
+		for vi, al := range [][]string{{"al", "al2"}, {"al2", "al"}, {"al", ""}, {"", "al"}, {"zz", "aa"}} {
+			p := dep(a.Name, a.Comps...)
+			it := Iface{Name: "Imp", Methods: []Method{meth("M1", ps(par("v", Named(0, "T"))), nil), meth("M2", ps(par("k", Basic("string"))), ps(par("", Ptr(Named(0, "U")))))},
+				Aliases: []map[int]string{{0: al[0]}, {0: al[1]}}}
+			src := newSrc("isrc", []Pkg{p}, it)
+			dest := "implicit"
+			if vi%2 == 1 {
+				dest = "other"
+			}
+			cases = append(cases, &Case{Origin: "imports:two-aliases-one-package:" + name([]impElem{a}) + " " + strings.Join(al, "|"), Src: src,
+				Cfg: Cfg{Dest: dest, Args: []string{"Imp"}}, Judge: []string{"C01", "C02", "C11", "C14", "C19"}, Repeat: 8})
+		}
+	}
 	n3 := 0
 	for _, a := range u {
 		for _, b := range u {
@@ -363,6 +415,36 @@ func CorpusNames(seed int64, tier string) []*Case {
 		}
 		addM(pl, rl)
 	}
+	// wide methods: more variables than any small pre-sized table holds, with the
+	// event that forces a rename (an import spelled like an early parameter, a
+	// numbering clash) arriving late; and the same with the package met first
+	firstSpecial := len(methods)
+	ints := func(names ...string) []Param {
+		var l []Param
+		for _, n := range names {
+			l = append(l, par(n, Basic("int")))
+		}
+		return l
+	}
+	addM(append(append(ps(par("s1", Basic("string"))), ints("a", "b", "c", "d", "e", "f", "g", "h")...), par("late", Named(0, "T")), par("z", Basic("int"))), nil)
+	addM(append(append(ps(par("x", Basic("string")), par("ctx", Basic("bool"))), ints("a", "b", "c", "d", "e", "f", "g", "h", "i")...), par("late", Ptr(Named(1, "T")))), ps(par("", errT)))
+	addM(append(ps(par("first", Named(0, "T"))), append(ints("a", "b", "c", "d", "e", "f", "g", "h", "i"), par("s1", Basic("string")))...), nil)
+	{
+		var l []Param
+		for i := 0; i < 12; i++ {
+			l = append(l, par("_", Basic("string")))
+		}
+		addM(l, ps(par("", Basic("string")), par("", Basic("string"))))
+		var u []Param
+		for i := 0; i < 10; i++ {
+			u = append(u, par("", Basic("int")))
+		}
+		addM(append(u, par("", Named(0, "T")), par("", Named(1, "T"))), nil)
+	}
+	// an unexported alias of the source package as the type of unnamed and blank
+	// parameters (named after nothing: go/types gives it no default name)
+	addM(ps(par("", AliasIn(-1, "headers")), par("", Basic("string"))), nil)
+	addM(ps(par("_", AliasIn(-1, "headers")), par("h", AliasIn(-1, "headers"))), ps(par("", AliasIn(-1, "headers"))))
 	// one method per interface (a recorded finding's shape in one method must not
 	// hide what happens to another), all interfaces in one source package
 	var ifs []Iface
@@ -372,8 +454,12 @@ func CorpusNames(seed int64, tier string) []*Case {
 	src := newSrc("nsrc", pkgs, ifs...)
 	for i, it := range ifs {
 		for k, cfg := range []Cfg{{Dest: "implicit"}, {Dest: "implicit", Stub: true, WithResets: true}, {Dest: "other", Stub: true}} {
-			if tier != "thorough" && (i+k+int(seed))%3 != 0 {
+			special := i >= firstSpecial && i < firstSpecial+7
+			if tier != "thorough" && (i+k+int(seed))%3 != 0 && !special {
 				continue
+			}
+			if special && cfg.Dest == "other" && i >= firstSpecial+5 {
+				continue // the unexported alias cannot be named from another package
 			}
 			cfg.Args = []string{it.Name}
 			cases = append(cases, &Case{Origin: fmt.Sprintf("names:%s", it.Name), Src: src, Cfg: cfg, Judge: []string{"C01", "C02", "C12", "C19"}})
@@ -416,7 +502,8 @@ func CorpusGenerics(seed int64, tier string) []*Case {
 			{Name: "Many", Params: ps(par("vs", Slice(last))), Results: ps(par("", first)), Variadic: true},
 			meth("Wrap", ps(par("g", NamedG(0, "G", first))), ps(par("", Ptr(last)))),
 			meth("Twice", ps(par("m", Map(Named(0, "U"), NamedG(0, "G", Named(1, "T"))))), ps(par("", NamedG(0, "G", NamedG(0, "G", last))))),
-			meth("Zed", ps(par("other", Named(2, "T"))), nil), // the other package called knum, met last
+			meth("Bare", ps(par("", first), par("", last)), ps(par("", last))), // unnamed parameters of type-parameter type
+			meth("Zed", ps(par("other", Named(2, "T"))), nil),                  // the other package called knum, met last
 		}}
 		// a second, plain interface that brings in the other package called knum: when
 		// it is processed AFTER the generic one, the generic mock's imports get re-aliased
@@ -488,6 +575,9 @@ func CorpusFlags(seed int64, tier string) []*Case {
 		{Name: "Namey", Methods: []Method{meth("Http", ps(par("req", Basic("string"))), nil), meth("Id", nil, ps(par("", Basic("int")))), meth("Json", ps(par("v", Slice(Basic("byte")))), ps(par("", errT))),
 			meth("Url", nil, ps(par("", Basic("string")), par("", errT))), meth("Uuid", ps(par("n", Basic("int"))), nil)}},
 		{Name: "Vari", Methods: []Method{{Name: "Log", Params: ps(par("format", Basic("string")), par("args", Slice(AliasT("any")))), Results: []Param{}, Variadic: true}}},
+		// method names that come close to what the template derives (Reset<M>Calls, <M>Calls, <M>Func) without colliding
+		{Name: "Resetty", Methods: []Method{meth("Calls", nil, ps(par("", Basic("int")))), meth("FuncGet", ps(par("k", Basic("string"))), nil), meth("Get", ps(par("k", Basic("string"))), ps(par("", Basic("int")))),
+			meth("GetCall", nil, nil), meth("Password", ps(par("p", Basic("string"))), nil), meth("ResetGetter", nil, nil), meth("ResetPasswordByEmail", ps(par("email", Basic("string"))), ps(par("", errT)))}},
 	}
 	// a dependency whose directory is not called like its package, imported under
 	// an explicit alias equal to its real name (what goimports itself writes), with a
@@ -509,6 +599,25 @@ func CorpusFlags(seed int64, tier string) []*Case {
 		cfg := Cfg{Dest: "implicit", Stub: b&1 != 0, SkipEnsure: b&2 != 0, WithResets: b&4 != 0, Args: []string{"Unexp"}}
 		cases = append(cases, &Case{Origin: "flags:unexported-methods", Src: usrc, Cfg: cfg, RunFmts: b%4 == 0,
 			Judge: []string{"C01", "C02", "C08", "C11", "C12", "C16", "C19"}})
+	}
+	// a source package whose directory is not called like it (module path .../store/v2,
+	// package store) next to a dependency of the same name: the source package itself
+	// is re-aliased, by a path element
+	vpk := []Pkg{dep("store", "m", "store")}
+	vsrc := newSrc("store", vpk, Iface{Name: "Migrator", Methods: []Method{meth("Move", ps(par("from", Named(0, "T")), par("to", Named(-1, "LocalT"))), ps(par("", Named(0, "U")), par("", errT)))}})
+	vsrc.SubDir = "v2"
+	for _, cfg := range []Cfg{{Dest: "other"}, {Dest: "other", SkipEnsure: true, Stub: true}, {Dest: "srcTest", WithResets: true}, {Dest: "implicit"}} {
+		cfg.Args = []string{"Migrator"}
+		cases = append(cases, &Case{Origin: "flags:source-dir-v2-dependency-namesake", Src: vsrc, Cfg: cfg, RunFmts: true,
+			Judge: []string{"C01", "C02", "C10", "C11", "C16", "C19"}})
+	}
+	// import paths whose byte order differs from their case-folded order (Shopify < aws in
+	// bytes, aws < shopify folded): the import block of the default output is gofmt's
+	cpk := []Pkg{dep("kit", "Shopify", "kit"), dep("smithy", "aws", "smithy"), dep("zap", "Uber", "zap")}
+	csrc := newSrc("csrc", cpk, Iface{Name: "Casey", Methods: []Method{meth("Send", ps(par("k", Named(0, "T")), par("s", Named(1, "T"))), ps(par("", Named(2, "U")), par("", errT)))}})
+	for _, cfg := range []Cfg{{Dest: "implicit"}, {Dest: "other", Stub: true}, {Dest: "implicit", SkipEnsure: true, WithResets: true}} {
+		cfg.Args = []string{"Casey"}
+		cases = append(cases, &Case{Origin: "flags:mixed-case-import-paths", Src: csrc, Cfg: cfg, RunFmts: true, Judge: []string{"C01", "C11", "C16", "C19"}})
 	}
 	src := newSrc("fsrc", pkgs, ifs...)
 	for ci, cfg := range allCfgs() {
@@ -558,7 +667,17 @@ func CorpusMulti(seed int64, tier string) []*Case {
 	ifs = append(ifs,
 		Iface{Name: "AliasA", OneFile: true, Aliases: []map[int]string{{0: "cl"}}, Methods: []Method{meth("Do", ps(par("c", Named(0, "T"))), ps(par("", Named(0, "U"))))}},
 		Iface{Name: "AliasB", OneFile: true, Aliases: []map[int]string{{2: "cl"}}, Methods: []Method{meth("Do", ps(par("c", Named(2, "T"))), ps(par("", errT)))}})
+	// one interface of the run has the shape of a recorded finding (KF-13: its own method
+	// ResetDoCalls collides with the reset generated for Do): whatever happens to its mock,
+	// the other mocks of the run are the ones they are alone
+	ifs = append(ifs, Iface{Name: "Collide", Methods: []Method{meth("Do", ps(par("a", Basic("int"))), nil), meth("ResetDoCalls", nil, nil)}})
 	src := newSrc("msrc", pkgs, ifs...)
+	for _, l := range [][]string{{"Collide", "Reader"}, {"Reader", "Collide"}, {"Writer", "Collide", "Other"}} {
+		for _, cfg := range []Cfg{{Dest: "implicit", WithResets: true}, {Dest: "other", WithResets: true, Stub: true}, {Dest: "implicit"}} {
+			cfg.Args = l
+			cases = append(cases, &Case{Origin: "multi:finding-shaped-neighbour:" + strings.Join(l, ","), Src: src, Cfg: cfg, Solo: true, Judge: []string{"C20", "C19"}, Repeat: 2})
+		}
+	}
 	names := []string{"Reader", "Writer", "Other", "Nothing"}
 	var lists [][]string
 	for _, a := range names {
